@@ -1,2 +1,703 @@
-use hxlib::util::{Args, Sink};
-pub async fn run(_args: &Args, _sink: &mut Sink) {}
+//! End-to-end differential arm: random typed tables x random filter trees x projections x
+//! limit/offset/order_by x random knob settings through `Dataset::scan()`.  Every knob setting must
+//! return exactly the reference rows (brute-force three-valued evaluation in expr.rs), and
+//! `count_rows` must equal the number of reference rows.
+use crate::expr::{self, Cell, Cmp, E};
+use crate::CLASS_PUSHDOWN;
+use arrow_array::*;
+use arrow_schema::{DataType, Field, Schema};
+use futures::TryStreamExt;
+use hxlib::util::{Args, Rng, Sink};
+use lance::dataset::scanner::{ColumnOrdering, MaterializationStyle};
+use lance::dataset::{WriteMode, WriteParams};
+use lance::Dataset;
+use lance_file::version::LanceFileVersion;
+use lance_index::scalar::{BuiltinIndexType, ScalarIndexParams};
+use lance_index::{DatasetIndexExt, IndexType};
+use serde_json::{json, Value};
+use std::sync::Arc;
+
+#[derive(Clone, Copy, Debug, PartialEq)]
+pub enum Ty {
+    I8,
+    I16,
+    I32,
+    I64,
+    U8,
+    U16,
+    U32,
+    U64,
+    F32,
+    F64,
+    Str,
+    Bool,
+}
+impl Ty {
+    pub fn bounds(self) -> Option<(i128, i128)> {
+        Some(match self {
+            Ty::I8 => (i8::MIN as i128, i8::MAX as i128),
+            Ty::I16 => (i16::MIN as i128, i16::MAX as i128),
+            Ty::I32 => (i32::MIN as i128, i32::MAX as i128),
+            Ty::I64 => (i64::MIN as i128, i64::MAX as i128),
+            Ty::U8 => (0, u8::MAX as i128),
+            Ty::U16 => (0, u16::MAX as i128),
+            Ty::U32 => (0, u32::MAX as i128),
+            Ty::U64 => (0, u64::MAX as i128),
+            _ => return None,
+        })
+    }
+    pub fn arrow(self) -> DataType {
+        match self {
+            Ty::I8 => DataType::Int8,
+            Ty::I16 => DataType::Int16,
+            Ty::I32 => DataType::Int32,
+            Ty::I64 => DataType::Int64,
+            Ty::U8 => DataType::UInt8,
+            Ty::U16 => DataType::UInt16,
+            Ty::U32 => DataType::UInt32,
+            Ty::U64 => DataType::UInt64,
+            Ty::F32 => DataType::Float32,
+            Ty::F64 => DataType::Float64,
+            Ty::Str => DataType::Utf8,
+            Ty::Bool => DataType::Boolean,
+        }
+    }
+}
+
+#[derive(Clone, Debug)]
+pub struct Col {
+    pub name: String,
+    pub ty: Ty,
+    pub nullable: bool,
+    pub has_nan: bool,
+    pub index: Option<&'static str>,
+}
+
+pub fn build_array(ty: Ty, cells: &[Cell]) -> ArrayRef {
+    macro_rules! ints {
+        ($arr:ty, $t:ty) => {
+            Arc::new(<$arr>::from(cells.iter().map(|c| match c { Cell::I(v) => Some(*v as $t), _ => None }).collect::<Vec<Option<$t>>>())) as ArrayRef
+        };
+    }
+    match ty {
+        Ty::I8 => ints!(Int8Array, i8),
+        Ty::I16 => ints!(Int16Array, i16),
+        Ty::I32 => ints!(Int32Array, i32),
+        Ty::I64 => ints!(Int64Array, i64),
+        Ty::U8 => ints!(UInt8Array, u8),
+        Ty::U16 => ints!(UInt16Array, u16),
+        Ty::U32 => ints!(UInt32Array, u32),
+        Ty::U64 => ints!(UInt64Array, u64),
+        Ty::F32 => Arc::new(Float32Array::from(cells.iter().map(|c| match c { Cell::F(v) => Some(*v as f32), _ => None }).collect::<Vec<_>>())),
+        Ty::F64 => Arc::new(Float64Array::from(cells.iter().map(|c| match c { Cell::F(v) => Some(*v), _ => None }).collect::<Vec<_>>())),
+        Ty::Str => Arc::new(StringArray::from(cells.iter().map(|c| match c { Cell::S(v) => Some(v.clone()), _ => None }).collect::<Vec<_>>())),
+        Ty::Bool => Arc::new(BooleanArray::from(cells.iter().map(|c| match c { Cell::B(v) => Some(*v), _ => None }).collect::<Vec<_>>())),
+    }
+}
+
+/// canonical text of one cell of a result batch (floats by value with the sign of zero, NaN as NaN)
+pub fn canon(arr: &ArrayRef, i: usize) -> String {
+    if arr.is_null(i) {
+        return "NULL".into();
+    }
+    macro_rules! prim {
+        ($t:ty) => {
+            if let Some(a) = arr.as_any().downcast_ref::<$t>() {
+                return format!("{:?}", a.value(i));
+            }
+        };
+    }
+    prim!(Int8Array);
+    prim!(Int16Array);
+    prim!(Int32Array);
+    prim!(Int64Array);
+    prim!(UInt8Array);
+    prim!(UInt16Array);
+    prim!(UInt32Array);
+    prim!(UInt64Array);
+    prim!(BooleanArray);
+    if let Some(a) = arr.as_any().downcast_ref::<Float32Array>() {
+        let v = a.value(i);
+        return if v.is_nan() { "NaN".into() } else { format!("{:?}", v as f64) };
+    }
+    if let Some(a) = arr.as_any().downcast_ref::<Float64Array>() {
+        let v = a.value(i);
+        return if v.is_nan() { "NaN".into() } else { format!("{:?}", v) };
+    }
+    if let Some(a) = arr.as_any().downcast_ref::<StringArray>() {
+        return format!("{:?}", a.value(i));
+    }
+    format!("?{:?}", arr.data_type())
+}
+pub fn canon_cell(c: &Cell) -> String {
+    match c {
+        Cell::Null => "NULL".into(),
+        Cell::I(v) => format!("{v}"),
+        Cell::F(v) => if v.is_nan() { "NaN".into() } else { format!("{:?}", v) },
+        Cell::S(s) => format!("{:?}", s),
+        Cell::B(b) => format!("{b}"),
+    }
+}
+
+const STRS: [&str; 9] = ["", "apple", "apple pie", "banana", "app", "Ünïcode", "pineapple", "ppl", "applx pple"];
+
+fn pool(rng: &mut Rng, c: &Col) -> Cell {
+    if c.nullable && rng.chance(1, 5) {
+        return Cell::Null;
+    }
+    match c.ty {
+        Ty::F32 | Ty::F64 => {
+            let vs: [f64; 12] = [0.0, -0.0, 1.5, -1.5, 2.0, 0.25, f64::INFINITY, f64::NEG_INFINITY, 1e30f32 as f64, -1e30f32 as f64, 100.0, 0.5];
+            if c.has_nan && rng.chance(1, 6) {
+                Cell::F(f64::NAN)
+            } else {
+                Cell::F(*rng.pick(&vs))
+            }
+        }
+        Ty::Str => Cell::S(rng.pick(&STRS).to_string()),
+        Ty::Bool => Cell::B(rng.bool()),
+        t => {
+            let (lo, hi) = t.bounds().unwrap();
+            let v = match rng.below(10) {
+                0 => lo,
+                1 => hi,
+                2 => lo + 1,
+                3 => hi - 1,
+                _ => (rng.below(9) as i128 - if lo < 0 { 4 } else { 0 }).clamp(lo, hi),
+            };
+            Cell::I(v)
+        }
+    }
+}
+/// a literal for a comparison with column c; `oob` allows an integer literal outside the column type
+fn lit(rng: &mut Rng, c: &Col, oob: bool) -> Cell {
+    match c.ty {
+        Ty::F32 | Ty::F64 => Cell::F(*rng.pick(&[1.5, -1.5, 2.0, 0.25, 100.0, -100.0, 65536.0, 0.5, 1.0])),
+        Ty::Str => Cell::S(rng.pick(&["", "apple", "apple p", "banana", "b", "app", "Ünïcode", "zzz"]).to_string()),
+        Ty::Bool => Cell::B(rng.bool()),
+        t => {
+            let (lo, hi) = t.bounds().unwrap();
+            let (llo, lhi) = (i64::MIN as i128 + 1, i64::MAX as i128);
+            let v = match rng.below(12) {
+                0 => lo,
+                1 => hi,
+                2 if oob => hi + 1,
+                3 if oob => lo - 1,
+                4 => hi - 1,
+                _ => rng.below(9) as i128 - if lo < 0 { 4 } else { 0 },
+            };
+            Cell::I(v.clamp(llo, lhi))
+        }
+    }
+}
+
+/// `neg`: we are under an odd number of NOTs or building a `<>`; F1 (C19, class not_over_nullable): a
+/// negation over an INDEXED NULLABLE column returns the NULL rows - kept out of this property.
+fn gen_expr(rng: &mut Rng, cols: &[Col], depth: u32, under_not: bool, oob: &mut bool) -> E {
+    if depth == 0 || rng.chance(2, 5) {
+        // leaf
+        for _ in 0..20 {
+            let ci = 1 + rng.below(cols.len() as u64 - 1) as usize; // any column but `id` ...
+            let ci = if rng.chance(1, 8) { 0 } else { ci }; // ... sometimes id
+            let c = &cols[ci];
+            let fragile = c.index.is_some() && c.nullable;
+            if fragile && under_not {
+                continue;
+            }
+            let allow_oob = rng.chance(1, 25);
+            let e = match rng.below(9) {
+                0 => E::IsNull(ci),
+                1 if c.ty != Ty::Bool => {
+                    let n = rng.range(1, 4);
+                    let mut ls: Vec<Cell> = (0..n).map(|_| lit(rng, c, false)).collect();
+                    if rng.chance(1, 6) {
+                        ls.push(Cell::Null);
+                    }
+                    E::In(ci, ls)
+                }
+                2 if c.ty != Ty::Bool => {
+                    let (a, b) = (lit(rng, c, allow_oob), lit(rng, c, false));
+                    E::Between(ci, a, b)
+                }
+                _ => {
+                    let mut ops = vec![Cmp::Eq, Cmp::Lt, Cmp::Le];
+                    if !c.has_nan {
+                        // a NaN meeting > / >= is ambiguous between IEEE and total order: left out
+                        ops.push(Cmp::Gt);
+                        ops.push(Cmp::Ge);
+                    }
+                    if !fragile {
+                        ops.push(Cmp::Ne);
+                    }
+                    if c.ty == Ty::Bool {
+                        ops = vec![Cmp::Eq];
+                        if fragile || under_not {
+                            // `b = false` is rewritten to NOT b
+                        }
+                    }
+                    let l = if c.ty == Ty::Bool { Cell::B(true) } else { lit(rng, c, allow_oob) };
+                    E::Cmp(*rng.pick(&ops), ci, l)
+                }
+            };
+            // record whether an out-of-range integer literal is present
+            let mut chk = |l: &Cell| {
+                if let (Cell::I(v), Some((lo, hi))) = (l, c.ty.bounds()) {
+                    if *v < lo || *v > hi {
+                        *oob = true;
+                    }
+                }
+            };
+            match &e {
+                E::Cmp(_, _, l) => chk(l),
+                E::Between(_, a, b) => {
+                    chk(a);
+                    chk(b)
+                }
+                E::In(_, ls) => ls.iter().for_each(|l| chk(l)),
+                _ => {}
+            }
+            return e;
+        }
+        return E::IsNull(0);
+    }
+    match rng.below(5) {
+        0 | 1 => E::And(Box::new(gen_expr(rng, cols, depth - 1, under_not, oob)), Box::new(gen_expr(rng, cols, depth - 1, under_not, oob))),
+        2 | 3 => E::Or(Box::new(gen_expr(rng, cols, depth - 1, under_not, oob)), Box::new(gen_expr(rng, cols, depth - 1, under_not, oob))),
+        _ => E::Not(Box::new(gen_expr(rng, cols, depth - 1, true, oob))),
+    }
+}
+
+pub struct Table {
+    pub ds: Dataset,
+    pub cols: Vec<Col>,
+    pub rows: Vec<Vec<Cell>>, // every row ever written, by id
+    pub deleted: Vec<bool>,
+    pub desc: Value,
+    _dir: tempfile::TempDir,
+}
+
+fn batch_of(cols: &[Col], rows: &[Vec<Cell>]) -> (Arc<Schema>, RecordBatch) {
+    let schema = Arc::new(Schema::new(cols.iter().map(|c| Field::new(&c.name, c.ty.arrow(), c.nullable)).collect::<Vec<_>>()));
+    let arrays: Vec<ArrayRef> = cols.iter().enumerate().map(|(j, c)| build_array(c.ty, &rows.iter().map(|r| r[j].clone()).collect::<Vec<_>>())).collect();
+    let b = RecordBatch::try_new(schema.clone(), arrays).unwrap();
+    (schema, b)
+}
+
+async fn make_table(rng: &mut Rng) -> Table {
+    let mut cols = vec![Col { name: "id".into(), ty: Ty::I32, nullable: false, has_nan: false, index: None }];
+    let int_tys = [Ty::I8, Ty::I16, Ty::I32, Ty::I64, Ty::U8, Ty::U16, Ty::U32, Ty::U64];
+    for k in 0..rng.range(2, 3) {
+        let ty = *rng.pick(&int_tys);
+        let nullable = rng.chance(2, 3);
+        let index = match rng.below(4) {
+            0 => Some("BTree"),
+            1 => Some("Bitmap"),
+            _ => None,
+        };
+        cols.push(Col { name: format!("n{k}"), ty, nullable, has_nan: false, index });
+    }
+    let fty = if rng.bool() { Ty::F32 } else { Ty::F64 };
+    cols.push(Col { name: "f".into(), ty: fty, nullable: true, has_nan: rng.bool(), index: None });
+    cols.push(Col { name: "s".into(), ty: Ty::Str, nullable: rng.bool(), has_nan: false, index: if rng.chance(1, 3) { Some("BTree") } else { None } });
+    cols.push(Col { name: "b".into(), ty: Ty::Bool, nullable: true, has_nan: false, index: None });
+    let n0 = rng.range(12, 40) as usize;
+    let n1 = if rng.chance(1, 2) { rng.range(3, 12) as usize } else { 0 }; // appended after the indices exist
+    let mut rows: Vec<Vec<Cell>> = vec![];
+    for i in 0..(n0 + n1) {
+        let mut r = vec![Cell::I(i as i128)];
+        for c in &cols[1..] {
+            r.push(pool(rng, c));
+        }
+        rows.push(r);
+    }
+    let dir = tempfile::tempdir().unwrap();
+    let uri = dir.path().join("t").to_string_lossy().to_string();
+    let per_file = *rng.pick(&[5usize, 8, 13, 100]);
+    let version = if rng.chance(1, 3) { LanceFileVersion::V2_1 } else { LanceFileVersion::Stable };
+    let params = WriteParams { max_rows_per_file: per_file, max_rows_per_group: 4, mode: WriteMode::Create, data_storage_version: Some(version), ..Default::default() };
+    let (schema, b0) = batch_of(&cols, &rows[..n0]);
+    let mut ds = Dataset::write(RecordBatchIterator::new(vec![Ok(b0)], schema.clone()), &uri, Some(params.clone())).await.unwrap();
+    for c in cols.iter() {
+        if let Some(k) = c.index {
+            let (it, p) = match k {
+                "Bitmap" => (IndexType::Bitmap, ScalarIndexParams::for_builtin(BuiltinIndexType::Bitmap)),
+                _ => (IndexType::BTree, ScalarIndexParams::default()),
+            };
+            ds.create_index(&[c.name.as_str()], it, None, &p, true).await.unwrap();
+        }
+    }
+    if n1 > 0 {
+        let (schema, b1) = batch_of(&cols, &rows[n0..]);
+        let p = WriteParams { mode: WriteMode::Append, ..params.clone() };
+        ds = Dataset::write(RecordBatchIterator::new(vec![Ok(b1)], schema), &uri, Some(p)).await.unwrap();
+    }
+    let mut deleted = vec![false; rows.len()];
+    if rng.chance(2, 3) {
+        let dels: Vec<usize> = (0..rows.len()).filter(|_| rng.chance(1, 5)).collect();
+        if !dels.is_empty() {
+            ds.delete(&format!("id IN ({})", dels.iter().map(|x| x.to_string()).collect::<Vec<_>>().join(","))).await.unwrap();
+            for d in dels {
+                deleted[d] = true;
+            }
+        }
+    }
+    let desc = json!({
+        "columns": cols.iter().map(|c| json!({"name": c.name, "type": format!("{:?}", c.ty), "nullable": c.nullable, "index": c.index, "has_nan": c.has_nan})).collect::<Vec<_>>(),
+        "rows_indexed": n0, "rows_appended_after_index": n1, "max_rows_per_file": per_file, "version": format!("{version:?}"),
+        "deleted_ids": deleted.iter().enumerate().filter(|(_, d)| **d).map(|(i, _)| i).collect::<Vec<_>>(),
+    });
+    Table { ds, cols, rows, deleted, desc, _dir: dir }
+}
+
+#[derive(Clone, Debug)]
+pub struct Knobs {
+    pub batch_size: Option<usize>,
+    pub batch_readahead: Option<usize>,
+    pub fragment_readahead: Option<usize>,
+    pub mat: u8,
+    pub use_stats: bool,
+    pub use_index: bool,
+    pub prefilter: bool,
+    pub strict: bool,
+    pub in_order: bool,
+}
+fn gen_knobs(rng: &mut Rng) -> Knobs {
+    Knobs {
+        batch_size: if rng.chance(3, 4) { Some(*rng.pick(&[1usize, 2, 3, 7, 16, 1024])) } else { None },
+        batch_readahead: if rng.bool() { Some(rng.range(1, 4) as usize) } else { None },
+        fragment_readahead: if rng.bool() { Some(rng.range(1, 4) as usize) } else { None },
+        mat: rng.below(3) as u8,
+        use_stats: rng.bool(),
+        use_index: rng.chance(2, 3),
+        prefilter: rng.bool(),
+        strict: rng.chance(1, 4),
+        in_order: !rng.chance(1, 6),
+    }
+}
+
+pub struct Query {
+    pub filter: Option<E>,
+    pub filter_sql: Option<String>,
+    pub proj: Vec<usize>,
+    pub limit: Option<i64>,
+    pub offset: Option<i64>,
+    pub order: Option<(usize, bool, bool)>, // (column, ascending, nulls_first); ties broken by id ascending
+}
+
+pub async fn run_query(ds: &Dataset, cols: &[Col], q: &Query, k: &Knobs) -> Result<Vec<Vec<String>>, String> {
+    let mut sc = ds.scan();
+    if let Some(f) = &q.filter_sql {
+        sc.filter(f).map_err(|e| format!("filter: {e}"))?;
+    }
+    let names: Vec<&str> = q.proj.iter().map(|j| cols[*j].name.as_str()).collect();
+    sc.project(&names).map_err(|e| format!("project: {e}"))?;
+    if q.limit.is_some() || q.offset.is_some() {
+        sc.limit(q.limit, q.offset).map_err(|e| format!("limit: {e}"))?;
+    }
+    if let Some((c, asc, nf)) = q.order {
+        let mut ord = vec![ColumnOrdering { ascending: asc, nulls_first: nf, column_name: cols[c].name.clone() }];
+        if c != 0 {
+            ord.push(ColumnOrdering::asc_nulls_first("id".into()));
+        }
+        sc.order_by(Some(ord)).map_err(|e| format!("order_by: {e}"))?;
+    }
+    if let Some(b) = k.batch_size {
+        sc.batch_size(b);
+    }
+    if let Some(b) = k.batch_readahead {
+        sc.batch_readahead(b);
+    }
+    if let Some(b) = k.fragment_readahead {
+        sc.fragment_readahead(b);
+    }
+    sc.materialization_style(match k.mat {
+        0 => MaterializationStyle::Heuristic,
+        1 => MaterializationStyle::AllLate,
+        _ => MaterializationStyle::AllEarly,
+    });
+    sc.use_stats(k.use_stats);
+    sc.use_scalar_index(k.use_index);
+    sc.prefilter(k.prefilter);
+    sc.strict_batch_size(k.strict);
+    sc.scan_in_order(k.in_order);
+    let batches: Vec<RecordBatch> = sc.try_into_stream().await.map_err(|e| format!("plan: {e}"))?.try_collect().await.map_err(|e| format!("exec: {e}"))?;
+    let mut out = vec![];
+    for b in batches {
+        if let (Some(bs), true) = (k.batch_size, k.strict) {
+            if b.num_rows() > bs {
+                return Err(format!("batch of {} rows with batch_size {}", b.num_rows(), bs));
+            }
+        }
+        for i in 0..b.num_rows() {
+            let mut r = vec![];
+            for name in &names {
+                let a = b.column_by_name(name).ok_or_else(|| format!("column {name} missing from the result"))?;
+                r.push(canon(a, i));
+            }
+            out.push(r);
+        }
+    }
+    Ok(out)
+}
+
+pub fn reference(t: &Table, q: &Query) -> (Vec<Vec<String>>, usize) {
+    let mut sel: Vec<usize> = (0..t.rows.len()).filter(|i| !t.deleted[*i]).filter(|i| q.filter.as_ref().map(|f| expr::eval(f, &t.rows[*i]) == Some(true)).unwrap_or(true)).collect();
+    let count = sel.len();
+    if let Some((c, asc, nf)) = q.order {
+        sel.sort_by(|a, b| {
+            use std::cmp::Ordering::*;
+            let (x, y) = (&t.rows[*a][c], &t.rows[*b][c]);
+            let o = match (x, y) {
+                (Cell::Null, Cell::Null) => Equal,
+                (Cell::Null, _) => if nf { Less } else { Greater },
+                (_, Cell::Null) => if nf { Greater } else { Less },
+                (Cell::I(p), Cell::I(r)) => if asc { p.cmp(r) } else { r.cmp(p) },
+                _ => Equal,
+            };
+            o.then(a.cmp(b))
+        });
+    }
+    let off = q.offset.unwrap_or(0) as usize;
+    let sel: Vec<usize> = sel.into_iter().skip(off).take(q.limit.map(|l| l as usize).unwrap_or(usize::MAX)).collect();
+    (sel.iter().map(|i| q.proj.iter().map(|j| canon_cell(&t.rows[*i][*j])).collect()).collect(), count)
+}
+
+fn gen_query(rng: &mut Rng, t: &Table) -> (Query, bool) {
+    let mut oob = false;
+    let filter = if rng.chance(9, 10) { Some(gen_expr(rng, &t.cols, 3, false, &mut oob)) } else { None };
+    let names: Vec<&str> = t.cols.iter().map(|c| c.name.as_str()).collect();
+    let filter_sql = filter.as_ref().map(|f| expr::sql(f, &names));
+    let mut proj: Vec<usize> = (0..t.cols.len()).filter(|_| rng.chance(1, 2)).collect();
+    if proj.is_empty() {
+        proj.push(rng.below(t.cols.len() as u64) as usize);
+    }
+    if rng.bool() {
+        // projection order is the caller's
+        proj.reverse();
+    }
+    let (limit, offset) = match rng.below(6) {
+        0 | 1 => (None, None),
+        2 => (Some(rng.below(6) as i64), None),
+        3 => (Some(rng.range(1, 8) as i64), Some(rng.below(6) as i64)),
+        4 => (None, Some(rng.below(10) as i64)),
+        _ => (Some(rng.range(1, 60) as i64), None),
+    };
+    let order = if rng.chance(1, 4) {
+        let ints: Vec<usize> = (0..t.cols.len()).filter(|j| t.cols[*j].ty.bounds().is_some()).collect();
+        Some((*rng.pick(&ints), rng.bool(), rng.bool()))
+    } else {
+        None
+    };
+    (Query { filter, filter_sql, proj, limit, offset, order }, oob)
+}
+
+fn contains_nocase(hay: &str, needle: &str) -> bool {
+    hay.contains(needle)
+}
+
+/// fixed regression inputs of DESIGN section 6 (F11, F20a: repaired) and the reproduction of the
+/// pushed-down-limit finding through the public Scanner API
+async fn corpus(sink: &mut Sink) {
+    // ---- F11: 20 rows, BTree on x, `x >= 0 AND y = 1`, LIMIT 2 / LIMIT 2 OFFSET 1
+    let dir = tempfile::tempdir().unwrap();
+    let uri = dir.path().join("f11").to_string_lossy().to_string();
+    let schema = Arc::new(Schema::new(vec![Field::new("id", DataType::Int32, false), Field::new("x", DataType::Int32, false), Field::new("y", DataType::Int32, false)]));
+    let b = RecordBatch::try_new(
+        schema.clone(),
+        vec![Arc::new(Int32Array::from((0..20).collect::<Vec<i32>>())), Arc::new(Int32Array::from((0..20).collect::<Vec<i32>>())), Arc::new(Int32Array::from((0..20).map(|i| if i >= 15 { 1 } else { 0 }).collect::<Vec<i32>>()))],
+    )
+    .unwrap();
+    let mut ds = Dataset::write(RecordBatchIterator::new(vec![Ok(b)], schema.clone()), &uri, None).await.unwrap();
+    ds.create_index(&["x"], IndexType::BTree, None, &ScalarIndexParams::default(), true).await.unwrap();
+    for (filter, limit, offset, want) in [
+        ("x >= 0 AND y = 1", Some(2i64), None, vec![15, 16]),
+        ("x >= 0 AND y = 1", Some(2), Some(1i64), vec![16, 17]),
+        ("x >= 3 AND y = 1", Some(3), None, vec![15, 16, 17]),
+    ] {
+        for use_index in [true, false] {
+            let mut sc = ds.scan();
+            sc.filter(filter).unwrap();
+            sc.project(&["id"]).unwrap();
+            sc.limit(limit, offset).unwrap();
+            sc.use_scalar_index(use_index);
+            let got: Result<Vec<i32>, String> = async {
+                let bs: Vec<RecordBatch> = sc.try_into_stream().await.map_err(|e| e.to_string())?.try_collect().await.map_err(|e| e.to_string())?;
+                Ok(bs.iter().flat_map(|b| b.column(0).as_any().downcast_ref::<Int32Array>().unwrap().values().to_vec()).collect())
+            }
+            .await;
+            sink.count("e2e/corpus/F11");
+            if got.as_ref().ok() == Some(&want) {
+                sink.oracle_ok();
+            } else {
+                sink.oracle_fail(None, "F11 regression: LIMIT with an index-matched part and a refine filter", json!({"filter": filter, "limit": limit, "offset": offset, "use_scalar_index": use_index, "got": format!("{got:?}"), "want": want}));
+            }
+        }
+    }
+    // ---- F20a: NGram index + contains(s, 'ap') (query shorter than a trigram: AtLeast(empty))
+    let uri = dir.path().join("f20").to_string_lossy().to_string();
+    let words = ["", "apple", "apple pie", "banana", "Ünïcode", "pineapple", "app", "ppl"];
+    let ss: Vec<String> = (0..300).map(|i| words[(i * 7 + i / 8) % words.len()].to_string()).collect();
+    let schema = Arc::new(Schema::new(vec![Field::new("id", DataType::Int32, false), Field::new("s", DataType::Utf8, false)]));
+    let b = RecordBatch::try_new(schema.clone(), vec![Arc::new(Int32Array::from((0..300).collect::<Vec<i32>>())), Arc::new(StringArray::from(ss.clone()))]).unwrap();
+    let mut ds = Dataset::write(RecordBatchIterator::new(vec![Ok(b)], schema.clone()), &uri, None).await.unwrap();
+    ds.create_index(&["s"], IndexType::NGram, None, &ScalarIndexParams::for_builtin(BuiltinIndexType::NGram), true).await.unwrap();
+    for needle in ["ap", "", "apple", "pie"] {
+        let want: Vec<i32> = (0..300).filter(|i| contains_nocase(&ss[*i as usize], needle)).collect();
+        for use_index in [true, false] {
+            let mut sc = ds.scan();
+            sc.filter(&format!("contains(s, '{needle}')")).unwrap();
+            sc.project(&["id"]).unwrap();
+            sc.use_scalar_index(use_index);
+            let got: Result<Vec<i32>, String> = async {
+                let bs: Vec<RecordBatch> = sc.try_into_stream().await.map_err(|e| e.to_string())?.try_collect().await.map_err(|e| e.to_string())?;
+                Ok(bs.iter().flat_map(|b| b.column(0).as_any().downcast_ref::<Int32Array>().unwrap().values().to_vec()).collect())
+            }
+            .await;
+            sink.count("e2e/corpus/F20a");
+            if got.as_ref().ok() == Some(&want) {
+                sink.oracle_ok();
+            } else {
+                sink.oracle_fail(None, "F20a regression: contains() through an NGram index", json!({"needle": needle, "use_scalar_index": use_index, "got_len": got.as_ref().map(|g| g.len()).map_err(|e| e.clone()), "want_len": want.len()}));
+            }
+        }
+    }
+    // ---- the pushed-down-limit finding through Scanner (class limit_pushdown_skips_unguaranteed_rows)
+    // (a) AtLeast from NOT over an inexact (NGram) index: row 0 has every trigram of 'apple' without
+    //     containing it, so it is a candidate of contains() and NOT vouched for by NOT contains()
+    let uri = dir.path().join("neg").to_string_lossy().to_string();
+    let ss: Vec<String> = vec!["applx pple".to_string(), "banana".to_string(), "cherry".to_string(), "apple".to_string(), "durian".to_string()];
+    let b = RecordBatch::try_new(schema.clone(), vec![Arc::new(Int32Array::from((0..5).collect::<Vec<i32>>())), Arc::new(StringArray::from(ss.clone()))]).unwrap();
+    let mut ds = Dataset::write(RecordBatchIterator::new(vec![Ok(b)], schema.clone()), &uri, None).await.unwrap();
+    ds.create_index(&["s"], IndexType::NGram, None, &ScalarIndexParams::for_builtin(BuiltinIndexType::NGram), true).await.unwrap();
+    let mut res = vec![];
+    for use_index in [true, false] {
+        let mut sc = ds.scan();
+        sc.filter("NOT contains(s, 'apple')").unwrap();
+        sc.project(&["id"]).unwrap();
+        sc.limit(Some(1), None).unwrap();
+        sc.use_scalar_index(use_index);
+        let got: Result<Vec<i32>, String> = async {
+            let bs: Vec<RecordBatch> = sc.try_into_stream().await.map_err(|e| e.to_string())?.try_collect().await.map_err(|e| e.to_string())?;
+            Ok(bs.iter().flat_map(|b| b.column(0).as_any().downcast_ref::<Int32Array>().unwrap().values().to_vec()).collect())
+        }
+        .await;
+        res.push(got);
+    }
+    sink.count("e2e/corpus/pushdown-atleast");
+    sink.notes.push(format!("pushed-down limit, NOT contains(s,'apple') LIMIT 1 over NGram: indexed {:?} / unindexed {:?} (reference [0])", res[0], res[1]));
+    if res[0].as_ref().ok() == Some(&vec![0]) && res[1].as_ref().ok() == Some(&vec![0]) {
+        sink.oracle_ok();
+    } else if res[1].as_ref().ok() == Some(&vec![0]) && res[0].as_ref().map(|g| g.len() == 1 && [1, 2, 4].contains(&g[0])).unwrap_or(false) {
+        sink.oracle_fail(Some(CLASS_PUSHDOWN), "NOT contains(s,'apple') LIMIT 1: the indexed scan returns a later row than the unindexed scan", json!({"strings": ss, "indexed": format!("{:?}", res[0]), "unindexed": format!("{:?}", res[1])}));
+    } else {
+        sink.oracle_fail(None, "NOT contains(s,'apple') LIMIT 1 returns a wrong row", json!({"strings": ss, "indexed": format!("{:?}", res[0]), "unindexed": format!("{:?}", res[1])}));
+    }
+    // (b) a fragment the index does not cover scanned BEFORE a covered one (Scanner::with_fragments order)
+    let uri = dir.path().join("frag").to_string_lossy().to_string();
+    let schema = Arc::new(Schema::new(vec![Field::new("id", DataType::Int32, false), Field::new("x", DataType::Int32, false)]));
+    let mk = |lo: i32| RecordBatch::try_new(schema.clone(), vec![Arc::new(Int32Array::from((lo..lo + 4).collect::<Vec<i32>>())), Arc::new(Int32Array::from((lo..lo + 4).collect::<Vec<i32>>()))]).unwrap();
+    let mut ds = Dataset::write(RecordBatchIterator::new(vec![Ok(mk(0))], schema.clone()), &uri, None).await.unwrap();
+    ds.create_index(&["x"], IndexType::BTree, None, &ScalarIndexParams::default(), true).await.unwrap();
+    let p = WriteParams { mode: WriteMode::Append, ..Default::default() };
+    let ds = Dataset::write(RecordBatchIterator::new(vec![Ok(mk(4))], schema.clone()), &uri, Some(p)).await.unwrap();
+    let frags: Vec<_> = ds.fragments().iter().cloned().collect();
+    let mut res = vec![];
+    for use_index in [true, false] {
+        let mut sc = ds.scan();
+        sc.with_fragments(vec![frags[1].clone(), frags[0].clone()]);
+        sc.filter("x >= 0").unwrap();
+        sc.project(&["id"]).unwrap();
+        sc.limit(Some(2), None).unwrap();
+        sc.use_scalar_index(use_index);
+        let got: Result<Vec<i32>, String> = async {
+            let bs: Vec<RecordBatch> = sc.try_into_stream().await.map_err(|e| e.to_string())?.try_collect().await.map_err(|e| e.to_string())?;
+            Ok(bs.iter().flat_map(|b| b.column(0).as_any().downcast_ref::<Int32Array>().unwrap().values().to_vec()).collect())
+        }
+        .await;
+        res.push(got);
+    }
+    sink.count("e2e/corpus/pushdown-uncovered-fragment-first");
+    sink.notes.push(format!("pushed-down limit, with_fragments([uncovered, covered]) x >= 0 LIMIT 2: indexed {:?} / unindexed {:?} (reference [4, 5])", res[0], res[1]));
+    if res[0].as_ref().ok() == Some(&vec![4, 5]) && res[1].as_ref().ok() == Some(&vec![4, 5]) {
+        sink.oracle_ok();
+    } else if res[1].as_ref().ok() == Some(&vec![4, 5]) && res[0].as_ref().ok() == Some(&vec![0, 1]) {
+        sink.oracle_fail(Some(CLASS_PUSHDOWN), "with_fragments([uncovered, covered]) LIMIT 2: the indexed scan skips the rows of the uncovered fragment", json!({"indexed": format!("{:?}", res[0]), "unindexed": format!("{:?}", res[1])}));
+    } else {
+        sink.oracle_fail(None, "with_fragments([uncovered, covered]) LIMIT 2 returns wrong rows", json!({"indexed": format!("{:?}", res[0]), "unindexed": format!("{:?}", res[1])}));
+    }
+}
+
+pub async fn run(args: &Args, sink: &mut Sink) {
+    corpus(sink).await;
+    let mut rng = Rng::new(args.seed ^ 0xE2E16);
+    let ntables = args.vol(6, 40);
+    let nq = args.vol(14, 40);
+    let nknobs = args.vol(4, 6);
+    for _ in 0..ntables {
+        let t = make_table(&mut rng).await;
+        sink.count("e2e/tables");
+        for _ in 0..nq {
+            let (q, oob) = gen_query(&mut rng, &t);
+            let (want, count) = reference(&t, &q);
+            sink.nontrivial(&format!("{}{:?}{:?}{:?}{:?}", q.filter_sql.clone().unwrap_or_default(), q.proj, q.limit, q.offset, t.desc));
+            sink.count(if oob { "e2e/query/out_of_range_literal" } else { "e2e/query" });
+            let mut settings = vec![Knobs { batch_size: None, batch_readahead: None, fragment_readahead: None, mat: 0, use_stats: true, use_index: false, prefilter: false, strict: false, in_order: true }];
+            settings.push(Knobs { use_index: true, ..settings[0].clone() });
+            for _ in 0..nknobs {
+                settings.push(gen_knobs(&mut rng));
+            }
+            for k in settings {
+                let got = run_query(&t.ds, &t.cols, &q, &k).await;
+                let case = json!({"table": t.desc, "filter": q.filter_sql, "project": q.proj.iter().map(|j| t.cols[*j].name.clone()).collect::<Vec<_>>(),
+                    "limit": q.limit, "offset": q.offset, "order_by": q.order.map(|(c, a, n)| json!({"column": t.cols[c].name, "ascending": a, "nulls_first": n})),
+                    "knobs": format!("{k:?}"), "got": format!("{:?}", got.as_ref().map(|g| g.iter().take(12).collect::<Vec<_>>())), "want": format!("{:?}", want.iter().take(12).collect::<Vec<_>>()), "want_rows": want.len()});
+                if oob {
+                    // a literal outside the column's integer type: the filter must be refused, whatever the knobs
+                    match got {
+                        Err(_) => sink.oracle_ok(),
+                        Ok(_) => sink.oracle_fail(None, "a filter with an out-of-range integer literal was accepted", case),
+                    }
+                    continue;
+                }
+                let ordered = k.in_order || q.order.is_some();
+                match got {
+                    Ok(mut g) => {
+                        let mut w = want.clone();
+                        if !ordered {
+                            if q.limit.is_some() || q.offset.is_some() {
+                                // which rows an unordered scan keeps under LIMIT is not determined: only the size is
+                                if g.len() == w.len() { sink.oracle_ok() } else { sink.oracle_fail(None, "unordered scan with LIMIT/OFFSET returns a wrong number of rows", case) }
+                                continue;
+                            }
+                            g.sort();
+                            w.sort();
+                        }
+                        if g == w {
+                            sink.oracle_ok();
+                        } else {
+                            sink.oracle_fail(None, "scan result differs from the reference evaluation of the query", case);
+                        }
+                    }
+                    Err(e) => sink.oracle_fail(None, &format!("scan failed: {}", &e[..e.len().min(200)]), case),
+                }
+            }
+            // count_rows with the same filter = number of reference rows (no limit/offset)
+            if !oob {
+                for use_index in [true, false] {
+                    let mut sc = t.ds.scan();
+                    if let Some(f) = &q.filter_sql {
+                        sc.filter(f).unwrap();
+                    }
+                    sc.use_scalar_index(use_index);
+                    let c = sc.count_rows().await;
+                    sink.count("e2e/count_rows");
+                    match c {
+                        Ok(c) if c as usize == count => sink.oracle_ok(),
+                        other => sink.oracle_fail(None, "count_rows differs from the number of rows the reference query returns", json!({"table": t.desc, "filter": q.filter_sql, "use_scalar_index": use_index, "got": format!("{other:?}"), "want": count})),
+                    }
+                }
+            }
+        }
+    }
+    sink.notes.push("e2e arm: float columns holding NaN are never compared with > or >=, float literals are non-zero and exactly representable; negations over indexed nullable columns are not generated (F1 belongs to C19)".into());
+}
